@@ -67,6 +67,26 @@ STD_ENUMS = {
     'std::cmp::Ordering': [('Less', -1), ('Equal', 0), ('Greater', 1)],
     'std::ops::ControlFlow': [('Continue', 0), ('Break', 1)],
 }
+UNIVERSES = [frozenset(n for (n, _) in vs) for vs in STD_ENUMS.values()]
+SOME = frozenset(['Some'])
+OPTION = 'std::option::Option'
+
+
+def complement(names):
+    """complement of a set of variant names inside the std enum they belong to (None if unknown)"""
+    for u in UNIVERSES:
+        if names and names <= u:
+            return u - names
+    return None
+
+
+def mk_some(x):
+    return ('aggr', OPTION, 'Some', (('0', x),))
+
+
+MK_NONE = ('aggr', OPTION, 'None', ())
+
+
 CMP_OPS = {'Lt': '<', 'Le': '<=', 'Gt': '>', 'Ge': '>=', 'Eq': '==', 'Ne': '!='}
 CMP_SETS = {'Lt': frozenset('<'), 'Le': frozenset('<='), 'Gt': frozenset('>'), 'Ge': frozenset('>='),
             'Eq': frozenset('='), 'Ne': frozenset('<>')}
@@ -204,8 +224,9 @@ class Body:
     def preds(self, bb):
         if self._preds is None:
             self._preds = defaultdict(list)
+            live = self.live_blocks()
             for b in range(self.nb):
-                if self.is_cleanup(b):
+                if self.is_cleanup(b) or b not in live:
                     continue
                 for (t, lab) in self.succ(b):
                     self._preds[t].append((b, lab))
@@ -213,6 +234,8 @@ class Body:
 
     def live_blocks(self):
         """blocks reachable from entry along normal edges"""
+        if getattr(self, '_live', None) is not None:
+            return self._live
         seen = {0}
         dq = deque([0])
         while dq:
@@ -221,6 +244,7 @@ class Body:
                 if t not in seen and not self.is_cleanup(t):
                     seen.add(t)
                     dq.append(t)
+        self._live = seen
         return seen
 
     def return_blocks(self):
@@ -494,7 +518,41 @@ class Body:
             self._dom = dom
         return self._dom
 
-    def defs_via_edge(self, local, point, P, lab):
+    def dominators_from(self, root, removed):
+        """dominator sets of the sub-graph reachable from block `root` without passing through block `removed`"""
+        cache = self.__dict__.setdefault('_domfrom', {})
+        key = (root, removed)
+        if key in cache:
+            return cache[key]
+        live = set()
+        dq = deque([root])
+        while dq:
+            b = dq.popleft()
+            if b in live or b in removed or self.is_cleanup(b):
+                continue
+            live.add(b)
+            for (t, _) in self.succ(b):
+                dq.append(t)
+        order = sorted(live)
+        dom = {b: set(order) for b in order}
+        dom[root] = {root}
+        changed = True
+        while changed:
+            changed = False
+            for b in order:
+                if b == root:
+                    continue
+                ps = [p for (p, _) in self.preds(b) if p in live]
+                if not ps:
+                    continue
+                new = set.intersection(*[dom[p] for p in ps]) | {b}
+                if new != dom[b]:
+                    dom[b] = new
+                    changed = True
+        cache[key] = dom
+        return dom
+
+    def defs_via_edge(self, local, point, P, lab, removed=()):
         """definitions of `local` that reach `point` along paths that start with the edge (P, lab) and do not come back to P.
         A path on which nothing redefines the local contributes the marker 'atP'. Returns a set (empty: point unreachable)."""
         ds = self.defs().get(local, [])
@@ -532,7 +590,7 @@ class Body:
                 if b == P:
                     continue
                 for (t, l) in self.succ(b):
-                    if self.is_cleanup(t):
+                    if self.is_cleanup(t) or t in removed:
                         continue
                     if out not in state[t]:
                         state[t].add(out)
@@ -545,6 +603,13 @@ class Body:
             self._origin = Origin(self)
         return self._origin
 
+    @property
+    def origin_sym(self):
+        """origin analysis that leaves the captured variables of this closure symbolic (('upvar', closure, index, name))"""
+        if getattr(self, '_origin_sym', None) is None:
+            self._origin_sym = Origin(self, symbolic_upvars=True)
+        return self._origin_sym
+
 
 # ---------------------------------------------------------------------------------------------
 class Facts:
@@ -552,6 +617,9 @@ class Facts:
         self.doc = doc
         from . import inline
         raw_bodies, self.inlined = inline.apply(doc)
+        from . import thread
+        fresh = set(k for k, v in raw_bodies.items() if v is not doc['bodies'].get(k))
+        self.threaded = thread.apply(raw_bodies, fresh)
         self.bodies = {k: Body(k, v, self) for k, v in raw_bodies.items()}
         self.adts = doc['adts']
         self.impls = doc['impls']
@@ -612,14 +680,22 @@ class Facts:
         """(parent body, bb, idx, stmt) of the Aggregate that creates the closure"""
         if self._closure_sites is None:
             self._closure_sites = {}
+            allsites = defaultdict(list)
             for b in self.bodies.values():
                 for (bb, i, s) in b.assigns(lambda s: s['rv']['k'] == 'aggr' and 'closure' in s['rv']):
-                    cn = s['rv']['closure']
-                    cb = self.bodies.get(cn)
-                    # prefer the creation site in the body the closure was written in (copies exist where helpers were inlined)
-                    if cn in self._closure_sites and cb is not None and self._closure_sites[cn][0].name == cb.parent:
-                        continue
-                    self._closure_sites[cn] = (b, bb, i, s)
+                    allsites[s['rv']['closure']].append((b, bb, i, s))
+            for cn, sites in allsites.items():
+                cb = self.bodies.get(cn)
+                home = [x for x in sites if cb is not None and x[0].name == cb.parent]
+                away = [x for x in sites if x not in home]
+                # a closure written in a helper that was inlined at exactly ONE place is resolved in that caller (its captures then
+                # denote the caller's values); with several copies the body it was written in is the only unambiguous context
+                if len(away) == 1 and home and (home[0][0].name, ) and any(c == home[0][0].name for (_, c) in self.inlined):
+                    self._closure_sites[cn] = away[0]
+                elif home:
+                    self._closure_sites[cn] = home[0]
+                else:
+                    self._closure_sites[cn] = sites[0]
         return self._closure_sites.get(closure_name)
 
     # call graph inside the crate -------------------------------------------------------------
@@ -691,11 +767,12 @@ def strip_casts(t):
 class Origin:
     MAXDEPTH = 80
 
-    def __init__(self, body):
+    def __init__(self, body, symbolic_upvars=False):
         self.body = body
         self.facts = body.facts
         self.memo = {}
         self.stack = set()
+        self.symbolic_upvars = symbolic_upvars
 
     # -- public ---------------------------------------------------------------------------
     def operand(self, op, point, depth=0):
@@ -716,6 +793,19 @@ class Origin:
             if pi < len(pb):
                 return self._promoted(pb[pi])
             return ('unknown', 'promoted')
+        if c.get('named') and 'int' not in c and 'bool' not in c:
+            # a named structured constant: the aggregate its initialiser builds
+            info = self.facts.consts.get(c['named']) if isinstance(self.facts.consts, dict) else None
+            if info and 'body' in info:
+                key = ('const', c['named'])
+                if key not in self.stack:
+                    self.stack.add(key)
+                    try:
+                        v = self._promoted(info['body'])
+                    finally:
+                        self.stack.discard(key)
+                    if not contains(v, lambda x: isinstance(x, tuple) and x and x[0] == 'unknown'):
+                        return v
         if 'int' in c:
             return ('const', c['int'], c.get('named'), c['ty'])
         if 'bool' in c:
@@ -769,6 +859,8 @@ class Origin:
 
     def upvar(self, closure_name, idx, name):
         """captured variable `idx` of closure `closure_name`, resolved in the body that creates the closure"""
+        if self.symbolic_upvars:
+            return ('upvar', closure_name, idx, name)
         site = self.facts.closure_site(closure_name)
         if site is None:
             return ('upvar', closure_name, idx, name)
@@ -842,10 +934,22 @@ class Origin:
             return t
         return None
 
-    def _ite(self, l, point, defs, with_param, depth):
-        """value of a local with several reaching definitions that are selected by ONE switch: ('ite', literal, v1, v2)"""
+    def _ite(self, l, point, defs, with_param, depth, via=None, fuel=6):
+        """value of a local with several reaching definitions that are selected by switches: ('ite', literal, v1, v2), nested when one
+        side of the nearest discriminating switch still has several definitions. Reading: 'at the LAST visit of the switch before this
+        point, the edge taken was ...' (definitions are collected along paths that do not come back to the switch).
+        via = (P, label): only consider paths that start with that edge and do not come back to P."""
         body = self.body
-        dom = body.dominators()
+        if fuel <= 0:
+            return None
+        removed = frozenset(p_ for (p_, _) in (via or ()))
+        if via is None:
+            dom = body.dominators()
+        else:
+            tg = [t for (t, lb_) in body.succ(via[-1][0]) if lb_ == via[-1][1] and not body.is_cleanup(t)]
+            if len(tg) != 1:
+                return None
+            dom = body.dominators_from(tg[0], removed)
         U = point[0]
         if U not in dom:
             return None
@@ -858,43 +962,57 @@ class Origin:
                 continue
             if P == U and point[1] <= len(body.stmts(P)):
                 continue
+            if P in removed:
+                continue
             groups = {}
             for (tb, lab) in body.succ(P):
                 if body.is_cleanup(tb):
                     continue
-                R = body.defs_via_edge(l, point, P, lab)
+                R = body.defs_via_edge(l, point, P, lab, removed)
                 if R:
-                    groups[lab] = R
-            if len(groups) < 2 or not all(len(R) == 1 for R in groups.values()):
+                    groups[lab] = frozenset(R)
+            if len(groups) < 2:
                 continue
             vals = {}
             for lab, R in groups.items():
-                vals.setdefault(list(R)[0], []).append(lab)
-            if len(vals) != 2:
+                vals.setdefault(R, []).append(lab)
+            if len(vals) < 2 or len(vals) > 4:
                 continue
-            covered = set(v for v in vals if v != 'atP')
-            if not covered <= defset:
+            if not all((R - {'atP'}) <= defset for R in vals):
                 continue
-            (k1, labs1), (k2, labs2) = sorted(vals.items(), key=lambda kv: repr(kv[0]))
-            # prefer to express the condition on the side with a single edge
-            if len(labs1) > 1 and len(labs2) == 1:
-                (k1, labs1), (k2, labs2) = (k2, labs2), (k1, labs1)
-            if len(labs1) != 1:
-                lits = [edge_literal(body, P, lab) for lab in labs1]
+            groups_ = sorted(vals.items(), key=lambda kv: (len(kv[1]), repr(sorted(map(repr, kv[0])))))   # single-edge groups first; the last is the 'else'
+
+            def lit_of(labs):
+                if len(labs) == 1:
+                    return edge_literal(body, P, labs[0])
+                lits = [edge_literal(body, P, lab) for lab in labs]
                 if all(x and x[0] == 'in' for x in lits) and len(set(x[1] for x in lits)) == 1:
-                    lit = ('in', lits[0][1], frozenset().union(*[x[2] for x in lits]))
-                else:
-                    continue
-            else:
-                lit = edge_literal(body, P, labs1[0])
-            if lit is None:
+                    return ('in', lits[0][1], frozenset().union(*[x[2] for x in lits]))
+                return None
+            lits_ = [lit_of(labs) for (R, labs) in groups_[:-1]]
+            if any(x is None for x in lits_):
                 continue
-            def val(k):
-                if k == 'atP':
-                    return self.local(l, body.term_point(P), depth + 1)
-                return self._def_term(l, bykey[k], depth + 1)
-            v1, v2 = val(k1), val(k2)
-            return mk_ite(lit, v1, v2)
+
+            def val(R, labs):
+                if len(R) == 1:
+                    k = list(R)[0]
+                    if k == 'atP':
+                        return self.local(l, body.term_point(P), depth + 1)
+                    return self._def_term(l, bykey[k], depth + 1)
+                if len(labs) != 1:
+                    return None
+                sub = [d for d in defs if d[:3] in R]
+                return self._ite(l, point, sub, with_param, depth + 1, via=tuple(via or ()) + ((P, labs[0]),), fuel=fuel - 1)
+            vs_ = []
+            for (R, labs) in groups_:
+                v_ = val(R, labs)
+                if v_ is None:
+                    return None
+                vs_.append(v_)
+            out = vs_[-1]
+            for lit_, v_ in zip(reversed(lits_), reversed(vs_[:-1])):
+                out = mk_ite(lit_, v_, out)
+            return out
         return None
 
     def _param(self, l):
@@ -980,6 +1098,50 @@ class Origin:
             return ('cmp', op, a, b)
         return ('bin', op, a, b)
 
+    def apply_fn(self, f, actual):
+        """result term of applying a crate-local closure (or fn item) term to `actual` arguments: its (single, loop-free) return
+        term with the parameters substituted; None when it cannot be expressed"""
+        if not (isinstance(f, tuple) and f and f[0] in ('closure', 'fn') and f[1] in self.facts.bodies):
+            return None
+        cb = self.facts.bodies[f[1]]
+        if cb.nb > 40 or cb.back_edges():
+            return None
+        rets = cb.return_blocks()
+        if len(rets) != 1:
+            return None
+        key = ('apply', cb.name)
+        if key in self.stack:
+            return None
+        self.stack.add(key)
+        try:
+            # closures: the captures are those of THIS closure value (its creation site may be one of several inlined copies)
+            org = cb.origin_sym if f[0] == 'closure' else cb.origin
+            rt = org.place({'l': 0, 'p': []}, cb.term_point(rets[0]))
+        finally:
+            self.stack.discard(key)
+        off = 1 if f[0] == 'closure' else 0
+        caps = f[2] if f[0] == 'closure' and len(f) > 2 else ()
+
+        def cap(idx, name):
+            old = cb.origin.upvar(cb.name, idx, name)
+            if isinstance(old, tuple) and old and old[0] == 'var':
+                return old          # a captured `&mut local`: a cell of the creating body, not a value
+            if idx < len(caps):
+                return caps[idx]
+            return old
+
+        def sub(x):
+            if isinstance(x, tuple):
+                if x and x[0] == 'param' and x[1] == cb.name and off <= x[2] < off + len(actual):
+                    return actual[x[2] - off]
+                if x and x[0] == 'upvar' and len(x) == 4 and x[1] == cb.name:
+                    return cap(x[2], x[3])
+                return tuple(sub(y) for y in x)
+            return x
+        if contains(rt, lambda x: isinstance(x, tuple) and x and x[0] == 'unknown'):
+            return None
+        return sub(rt)
+
     def call(self, t, point, depth=0):
         callee = t.get('callee')
         args = tuple(self.operand(a, point, depth) for a in t['args'])
@@ -1009,25 +1171,50 @@ class Origin:
             return mk_minmax(last, args[0], args[1])
         if callee in PARTIALORD_CALLS and len(args) == 2:
             return ('cmp', PARTIALORD_CALLS[callee], args[0], args[1])
+        if callee in ('std::cmp::Ordering::then_with', 'std::cmp::Ordering::then') and len(args) == 2 and depth < 40:
+            # lexicographic combination in normal form: ('lex', (c1, c2, ..)), flattened (then / then_with are associative)
+            second = args[1] if callee.endswith('::then') else self.apply_fn(args[1], ())
+            if second is not None:
+                items = (args[0][1] if isinstance(args[0], tuple) and args[0] and args[0][0] == 'lex' else (args[0],)) + \
+                        (second[1] if isinstance(second, tuple) and second and second[0] == 'lex' else (second,))
+                return ('lex', items)
         if callee == 'std::ops::Try::branch' and args:
-            return ('try', args[0])
-        if callee in ('std::ops::Fn::call', 'std::ops::FnMut::call_mut', 'std::ops::FnOnce::call_once') and len(args) == 2 and \
-                isinstance(args[0], tuple) and args[0] and args[0][0] == 'closure' and args[0][1] in self.facts.bodies and depth < 40:
+            return ('try', args[0], 'Option' if (t.get('arg_tys') or [''])[0].startswith('std::option::Option<') else 'Result')
+        if callee == 'std::ops::FromResidual::from_residual' and args and (t.get('arg_tys') or [''])[0].startswith('std::result::Result<'):
+            # `?` on an Err: the function returns Err(From::from(e))
+            return ('aggr', 'std::result::Result', 'Err', (('0', simplify_field(simplify_variant(args[0], 'Err'), '0', None)),))
+        if callee == 'std::ops::FromResidual::from_residual' and args and (t.get('arg_tys') or [''])[0].startswith('std::option::Option<'):
+            return MK_NONE      # `?` on a None
+        if callee.startswith('std::option::Option::<T>::') and args and depth < 40:
+            # Option combinators in normal form (the same term as the equivalent `match` / `if let`)
+            o = args[0]
+            some = ('in', o, SOME)
+            payload = simplify_field(simplify_variant(o, 'Some'), '0', None)
+            if last == 'unwrap_or' and len(args) == 2:
+                return mk_ite(some, payload, args[1])
+            if last == 'unwrap_or_else' and len(args) == 2:
+                r = self.apply_fn(args[1], ())
+                if r is not None:
+                    return mk_ite(some, payload, r)
+            if last == 'map_or' and len(args) == 3:
+                r = self.apply_fn(args[2], (payload,))
+                if r is not None:
+                    return mk_ite(some, r, args[1])
+            if last == 'map_or_else' and len(args) == 3:
+                r = self.apply_fn(args[2], (payload,))
+                d = self.apply_fn(args[1], ())
+                if r is not None and d is not None:
+                    return mk_ite(some, r, d)
+            if last == 'map' and len(args) == 2:
+                r = self.apply_fn(args[1], (payload,))
+                if r is not None:
+                    return mk_ite(some, mk_some(r), MK_NONE)
+        if callee in ('std::ops::Fn::call', 'std::ops::FnMut::call_mut', 'std::ops::FnOnce::call_once') and len(args) == 2 and depth < 40:
             # a local closure that is called directly: its (single, loop-free) return term with the parameters substituted
-            cb = self.facts.bodies[args[0][1]]
-            if cb.nb <= 16 and not cb.back_edges():
-                rets = cb.return_blocks()
-                if len(rets) == 1:
-                    rt = cb.origin.place({'l': 0, 'p': []}, cb.term_point(rets[0]))
-                    actual = args[1][1] if isinstance(args[1], tuple) and args[1] and args[1][0] == 'tuple' else ()
-                    def sub(x):
-                        if isinstance(x, tuple):
-                            if x and x[0] == 'param' and x[1] == cb.name and 1 <= x[2] <= len(actual):
-                                return actual[x[2] - 1]
-                            return tuple(sub(y) for y in x)
-                        return x
-                    if not contains(rt, lambda x: isinstance(x, tuple) and x and x[0] in ('var', 'unknown')):
-                        return sub(rt)
+            actual = args[1][1] if isinstance(args[1], tuple) and args[1] and args[1][0] == 'tuple' else ()
+            r = self.apply_fn(args[0], actual)
+            if r is not None:
+                return r
         site = None if is_pure(callee) else (self.body.name, point[0])
         return ('call', callee, args, site)
 
@@ -1035,6 +1222,13 @@ class Origin:
 def mk_ite(lit, v1, v2):
     if v1 == v2:
         return v1
+    if lit and lit[0] == 'in' and not lit[2]:
+        return v2       # an `otherwise` edge that no variant can take
+    if lit and lit[0] == 'in' and lit[2] in (frozenset(['None']), frozenset(['Err'])):
+        # canonical orientation: the test is expressed on the Some / Ok side
+        lit, v1, v2 = ('in', lit[1], complement(lit[2])), v2, v1
+    if lit and lit[0] == 'not' and lit[1][0] == 'in' and complement(lit[1][2]):
+        return mk_ite(('in', lit[1][1], complement(lit[1][2])), v1, v2)
     atoms = lit_atoms(lit)
     if len(atoms) == 1 and atoms[0][0] == 'cmp':
         _, a, b, S = atoms[0]
@@ -1063,6 +1257,21 @@ def cases(t, conds=()):
     if isinstance(t, tuple) and t and t[0] == 'ite':
         return cases(t[2], conds + (t[1],)) + cases(t[3], conds + (('not', t[1]),))
     return [(conds, t)]
+
+
+def lift_ite(t, depth=3):
+    """hoist if-then-else terms out of the fields of an aggregate: aggr{f: ite(c, a, b)} -> ite(c, aggr{f: a}, aggr{f: b})"""
+    if depth <= 0 or not (isinstance(t, tuple) and t):
+        return t
+    if t[0] == 'ite':
+        return ('ite', t[1], lift_ite(t[2], depth), lift_ite(t[3], depth))
+    if t[0] == 'aggr':
+        for n, (f, v) in enumerate(t[3]):
+            v = lift_ite(v, depth - 1)
+            if isinstance(v, tuple) and v and v[0] == 'ite':
+                mk = lambda x: ('aggr', t[1], t[2], t[3][:n] + ((f, x),) + t[3][n + 1:])
+                return ('ite', v[1], lift_ite(mk(v[2]), depth), lift_ite(mk(v[3]), depth))
+    return t
 
 
 def leaves(t):
@@ -1122,8 +1331,17 @@ def simplify_field(t, name, adt):
 
 def simplify_variant(t, name):
     if isinstance(t, tuple):
+        if t[0] == 'ite':
+            # the downcast asserts the variant: a branch that is an aggregate of another variant cannot be the one taken
+            other = lambda x: isinstance(x, tuple) and x and x[0] == 'aggr' and x[2] != name
+            if other(t[2]) and not other(t[3]):
+                return simplify_variant(t[3], name)
+            if other(t[3]) and not other(t[2]):
+                return simplify_variant(t[2], name)
+            return mk_ite(t[1], simplify_variant(t[2], name), simplify_variant(t[3], name))
         if t[0] == 'try':
-            return ('variant', t[1], {'Continue': 'Ok', 'Break': 'Err'}.get(name, name))
+            m = {'Continue': 'Some', 'Break': 'None'} if (len(t) > 2 and t[2] == 'Option') else {'Continue': 'Ok', 'Break': 'Err'}
+            return simplify_variant(t[1], m.get(name, name))
         if t[0] == 'aggr' and t[2] == name:
             return t
     return ('variant', t, name)
@@ -1132,6 +1350,8 @@ def simplify_variant(t, name):
 def simplify_discr(t, adt=None, variants=None):
     if isinstance(t, tuple):
         if t[0] == 'try':
+            if len(t) > 2 and t[2] == 'Option':
+                return ('discr', t[1], OPTION, (('Some', 0), ('None', 1)))
             return ('discr', t[1], 'std::result::Result', (('Ok', 0), ('Err', 1)))
         if t[0] == 'aggr':
             return ('const_variant', t[2], t[1])
@@ -1225,6 +1445,7 @@ def show(t, depth=0):
     if k == 'try': return 'try(%s)' % s(t[1])
     if k == 'ite': return 'ite(%s ? %s : %s)' % ([(a[0],) + tuple(show(x, depth + 1) if isinstance(x, tuple) else x for x in a[1:]) for a in lit_atoms(t[1])], s(t[2]), s(t[3]))
     if k == 'ovf': return 'ovf(%s)' % s(t[1])
+    if k == 'lex': return 'lex(%s)' % ', '.join(s(x) for x in t[1])
     if k == 'unknown': return '?%s' % t[1]
     return repr(t)
 
@@ -1280,9 +1501,20 @@ def lit_atoms(lit):
             return lit_atoms(('F', inner[1]))
         if inner[0] == 'F':
             return lit_atoms(('T', inner[1]))
+        if inner[0] == 'in':
+            c = complement(inner[2])
+            return lit_atoms(('in', inner[1], c)) if c else []
+        if inner[0] == 'not':
+            return lit_atoms(inner[1])
         return []
     if k == 'in':
         t = lit[1]
+        if isinstance(t, tuple) and t and t[0] == 'ite':
+            # discriminant test of `if c { Some(x) } else { None }` (or any two aggregates of known variants) is the test c itself
+            va = t[2][2] if isinstance(t[2], tuple) and t[2] and t[2][0] == 'aggr' else None
+            vb = t[3][2] if isinstance(t[3], tuple) and t[3] and t[3][0] == 'aggr' else None
+            if va is not None and vb is not None and (va in lit[2]) != (vb in lit[2]):
+                return lit_atoms(t[1] if va in lit[2] else ('not', t[1]))
         if isinstance(t, tuple) and t and t[0] == 'call' and t[1] in ('std::cmp::Ord::cmp',) and len(t[2]) == 2:
             m = {'Less': '<', 'Equal': '=', 'Greater': '>'}
             if all(n in m for n in lit[2]):
@@ -1486,3 +1718,41 @@ def path_effects(body, blocks, start, end):
             if t and t['k'] == 'call':
                 out.append(('call', (b, len(stmts)), t))
     return out
+
+
+def path_local_term(body, blocks, end, local, start=(0, 0)):
+    """term of `local` at the end of ONE path (blocks, up to but excluding point `end`): the last whole definition of the local ON
+    THE PATH; plain copies / moves of another local are followed backwards along the same path (path-sensitive, so that a value
+    funnelled through a temporary — e.g. the return slot of an inlined helper with several early returns — keeps its per-path term)"""
+    seq = []
+    last = len(blocks) - 1
+    for n, b in enumerate(blocks):
+        stmts = body.stmts(b)
+        lo = start[1] if n == 0 else 0
+        hi = end[1] if n == last else len(stmts) + 1
+        for i in range(lo, min(hi, len(stmts))):
+            s = stmts[i]
+            if s['k'] == 'assign' and not s['place']['p']:
+                seq.append((s['place']['l'], (b, i), 'assign', s))
+        if lo <= len(stmts) < hi:
+            t = body.term(b)
+            if t and t['k'] == 'call' and not t['dest']['p']:
+                seq.append((t['dest']['l'], (b, len(stmts)), 'call', t))
+    k = len(seq)
+    cur = local
+    for _ in range(64):
+        j = k - 1
+        while j >= 0 and seq[j][0] != cur:
+            j -= 1
+        if j < 0:
+            return body.origin.local(cur, (blocks[0], start[1]))
+        (l, pt, kind, s) = seq[j]
+        if kind == 'call':
+            return body.origin.call(s, pt)
+        rv = s['rv']
+        if rv['k'] == 'use' and 'place' in rv['op'] and not rv['op']['place']['p']:
+            cur = rv['op']['place']['l']
+            k = j
+            continue
+        return body.origin.rvalue(rv, pt)
+    return None
